@@ -44,6 +44,15 @@ def solve_obligation(o, timeout_s=10, dump_dir=None, inputs=None,
     r = z3.unknown
     strategy = 'all'
     if o.kind != 'canary':
+        # most obligations are immediate with all hypotheses
+        s0 = _solver(1500)
+        for a in C.str_axioms(): s0.add(a)
+        for h in o.hyps: s0.add(h)
+        s0.add(z3.Not(o.goal))
+        r = s0.check()
+        if r == z3.sat:
+            s = s0
+    if o.kind != 'canary' and r == z3.unknown:
         # goal-directed pruning: a proof from a subset of the hypotheses is a
         # proof.  Quantified hypotheses that share no symbol with the goal
         # (transitively, `depth` steps) are left out first.
@@ -70,7 +79,7 @@ def solve_obligation(o, timeout_s=10, dump_dir=None, inputs=None,
                 strategy = '%s: %d of %d hypotheses' % (
                            label, len(sub), len(o.hyps))
                 break
-    if r != z3.unsat:
+    if r == z3.unknown:
         r = s.check()
     o.backend = 'z3-%s' % z3.get_version_string()
     o.strategy = strategy
@@ -151,6 +160,11 @@ def symbols(e):
 def relevant_hyps(hyps, goal, depth):
     from .symexec import has_quant
     rel = set(symbols(goal))
+    if not rel:
+        # goal is `False` (a path that must be infeasible): what matters are
+        # the latest facts of the path (the condition that leads there)
+        for h in hyps[-4:]:
+            rel |= symbols(h)
     chosen = [False] * len(hyps)
     quant = [has_quant(h) for h in hyps]
     for _ in range(depth):
